@@ -93,6 +93,10 @@ def hasSub (s sub : String) : Bool := (s.splitOn sub).length > 1
 def shapeAllows (shape kind : String) : Bool :=
   if (shape.splitOn "lazy-init:lock").length > 1 then kind == "OTHER"
   else if shape.startsWith "shared-raise:" then kind == "OTHER" || kind == "per-request"
+  -- access shape: an ITERATION over the shared container outside a lock is not an action of Sm (get / capped insert) nor of Lz (test-and-set):
+  -- no memo / lazy / read-only kind admits it (`locked-iter:` = lexically inside `with <lock>:` is not matched here)
+  else if hasSub shape ",iter:" || hasSub shape ":iter:" then
+    !(kind.startsWith "memo-of-pure-function") && kind != "lazily-initialised-idempotent" && kind != "read-only"
   else if shape.startsWith "closure-cell:" then
     match shape.splitOn "|" with
     | [vals, uses] =>
